@@ -235,4 +235,41 @@ func TestC03Zoo(t *testing.T) {
 	if len(sh) > 1 {
 		rep.Class("zoo/shared-placeholder/f-g-f")
 	}
+	// two mocks alive at the same time, each with its own placeholder variable of the same function type: each
+	// placeholder is the original of its own function
+	for i := 0; i+1 < len(sh); i += 2 {
+		f, g := sh[i], sh[i+1]
+		rep.Journal(map[string]interface{}{"part": "zoo-two-live-origins", "f": f.Name, "g": g.Name, "crashkey": "C03/zoo-crash"})
+		rep.JournalSync()
+		ef, eg := map[int]int{}, map[int]int{}
+		for _, a := range []int{1, 2, 5, 9} {
+			ef[a], eg[a] = f.Call(a), g.Call(a)
+		}
+		var cf, cg int64
+		bf, bg := mocker.Create(), mocker.Create()
+		var ierr interface{}
+		func() { defer func() { ierr = recover() }(); f.Install(bf, &cf); g.Install(bg, &cg) }()
+		if ierr == nil {
+			for _, a := range []int{1, 2, 5, 9} {
+				rf, rg := f.Call(a), g.Call(a)
+				rep.Eval(2)
+				if rf != tr(ef[a]) || rg != tr(eg[a]) {
+					rep.Violate("C03/origin-wrong-result", fmt.Sprintf("%s and %s mocked at the same time, each with its own placeholder: %s(%d) = %d want %d, %s(%d) = %d want %d", f.Name, g.Name, f.Name, a, rf, tr(ef[a]), g.Name, a, rg, tr(eg[a])),
+						map[string]interface{}{"regime": "two-live-origins", "f": f.Name, "g": g.Name})
+					break
+				}
+			}
+			rep.Stat("zoo_two_live_origin_pairs", 1)
+		}
+		func() { defer func() { recover() }(); bg.Reset() }()
+		func() { defer func() { recover() }(); bf.Reset() }()
+		for _, a := range []int{1, 2} {
+			if f.Call(a) != ef[a] || g.Call(a) != eg[a] {
+				rep.Violate("C03/not-original-after-reset", fmt.Sprintf("%s / %s after Reset of two simultaneous mocks", f.Name, g.Name), nil)
+			}
+		}
+	}
+	if len(sh) > 1 {
+		rep.Class("zoo/two-live-origins-of-one-type")
+	}
 }
